@@ -34,7 +34,8 @@ def run(repo, rep, tier):
     rep.decided.append("D5 date -> JDE -> date identity, 1-day spacing and the three anchors by exact execution on whole calendar cycles (R-CYCLE)")
     rep.undecided = ["floating-point evaluation of INT(365.25 y) / INT(30.6001 (m + 1)) versus the exact rational execution (margin argued, not proved)",
                      "days outside the executed cycles rest on the 4-year / 400-year periodicity of the recipes (not proved symbolically)"]
-    d1(repo, rep)
+    grid_ok = refusal_grid(repo, rep)
+    d1(repo, rep, grid_ok)
     d2(repo, rep)
     d34(repo, rep)
     cycle_roundtrip(repo, rep, tier)
@@ -195,7 +196,113 @@ def cycle_roundtrip(repo, rep, tier):
         rep.inconcl("R-CYCLE", site, "anchors not executable: %s" % e)
 
 
-def d1(repo, rep):
+class _Refused(Exception):
+    def __init__(self, exc):
+        Exception.__init__(self, exc)
+        self.exc = exc
+
+
+def refusal_grid(repo, rep):
+    """R-REFUSE-GRID.  Whether Epoch(year, month, day) is accepted is a decision over comparisons, the month-length table and the leap
+    rule.  Epoch.set is evaluated symbolically for three positional numbers; its outcomes (and those of _check_values, reached through
+    the call, with _compute_jde given by its own term) are executed exactly for every class of date: years on both sides of -4712, of
+    the Julian/Gregorian leap rules and of 1582; every month; day 0, a fraction below 1, 1, the last day, the last day plus a fraction,
+    the first day past the month end, 32.  Decided per class: refused with ValueError exactly when year < -4712, day < 1 or
+    day >= month length + 1 under the leap rule in force - wherever in the construction path the test is made."""
+    from ..rules import eval_exact, NotEvaluable, repo_prims
+    from .c16 import stdlib_prims
+    rep.rule("R-REFUSE-GRID", "Epoch(year, month, day) raises ValueError exactly for year < -4712, day < 1 or a day past the month's length under the leap rule in force, "
+                              "and builds an Epoch otherwise: decision executed exactly on every class of (year, month, day)")
+    site = "Epoch.Epoch.set"
+    rep.fn(MOD, "Epoch.set")
+    Y, M, D = T.sym("NUM_Y"), T.sym("NUM_M"), T.sym("NUM_D")
+    fs = repo.func(MOD, "Epoch.set")
+    fc = repo.func(MOD, "Epoch._check_values")
+    if fs.args.vararg is None or fs.args.kwarg is None or fc.args.vararg is None:
+        rep.inconcl("R-REFUSE-GRID", site, "set(*args, **kwargs) / _check_values(*args) signatures changed")
+        return
+    try:
+        outs_set = outcomes(repo, MOD, "Epoch.set", arg_terms={"self": T.sym("self"), fs.args.vararg.arg: ("tuple", Y, M, D), fs.args.kwarg.arg: ("dict", ())})
+        CV = [T.sym("NUM_CV%d" % i) for i in range(3)]
+        outs_cv = outcomes(repo, MOD, "Epoch._check_values", arg_terms={"self": T.sym("self"), fc.args.vararg.arg: ("tuple",) + tuple(CV)})
+    except AnalysisError as e:
+        rep.inconcl("R-REFUSE-GRID", site, "not extractable: %s" % e)
+        return
+    hold = {}
+
+    def select(outs, env):
+        for o in outs:
+            if eval_exact(o.cond, dict(env, **{"$memo": {}}), hold["p"]) is True:
+                return o
+        raise NotEvaluable("no outcome selected")
+
+    def hook(t, env):
+        v = hold["std"](t, env)
+        if v is not None:
+            return v
+        if t[0] == "call" and t[1] == "Epoch.Epoch._check_values":
+            args = [a for a in t[2:] if a != T.sym("self")]
+            if len(args) != 3:
+                raise NotEvaluable("_check_values called with %d values" % len(args))
+            e2 = {CV[i]: eval_exact(args[i], env, hold["p"]) for i in range(3)}
+            o = select(outs_cv, e2)
+            if o.kind == "raise":
+                raise _Refused(o.value[1] if o.value and o.value[0] == "str" else "?")
+            if o.kind != "ret":
+                raise NotEvaluable("_check_values falls off the end")
+            return eval_exact(o.value, dict(e2, **{"$memo": {}}), hold["p"])
+        return None
+    hold["std"] = stdlib_prims(repo)
+    hold["p"] = repo_prims(repo, hook)
+    years = [-4714, -4713, -4712, -4711, -4, -1, 0, 1, 4, 100, 1500, 1581, 1582, 1583, 1600, 1700, 1900, 2000, 2023, 2024, 2100, 6000]
+    bad = {}
+    n = 0
+    for y in years:
+        julian_rule = y <= 1582
+        leap = (y % 4 == 0) if julian_rule else calendar.isleap(y)
+        for m in range(1, 13):
+            mlen = calendar.mdays[m] + (1 if (m == 2 and leap) else 0)
+            for d in (Fraction(0), Fraction(1, 2), Fraction(1), Fraction(mlen), Fraction(mlen) + Fraction(3, 4), Fraction(mlen + 1), Fraction(32), Fraction(-3)):
+                if y == 1582 and m == 10:
+                    continue                         # the dropped days 5-14 October are not part of the refusal clause
+                env = {Y: Fraction(y), M: Fraction(m), D: d}
+                try:
+                    try:
+                        o = select(outs_set, env)
+                        if o.kind == "raise":
+                            got = o.value[1] if o.value and o.value[0] == "str" else "?"
+                        else:
+                            # the stored value must be computable (a refusal may sit in a callee)
+                            jt = o.env.get("self._jde")
+                            if jt is not None:
+                                eval_exact(jt, dict(env, **{"$memo": {}}), hold["p"])
+                            got = None
+                    except _Refused as r:
+                        got = r.exc
+                except NotEvaluable as e:
+                    rep.inconcl("R-REFUSE-GRID", site, "decision not executable for (%d, %d, %s): %s" % (y, m, float(d), e))
+                    return
+                except (TypeError, ValueError, IndexError, KeyError, ZeroDivisionError) as e:
+                    rep.inconcl("R-REFUSE-GRID", site, "decision not executable for (%d, %d, %s): %s: %s" % (y, m, float(d), type(e).__name__, e))
+                    return
+                n += 1
+                want = y < -4712 or d < 1 or d >= mlen + 1
+                shown = "Epoch(%d, %d, %s)" % (y, m, float(d) if d.denominator != 1 else int(d))
+                if want and got is None:
+                    bad.setdefault("accepted", []).append("%s is accepted; %s" % (shown, "years before -4712 must be refused" if y < -4712 else ("day below 1" if d < 1 else "the month has %d days" % mlen)))
+                elif want and got != "ValueError":
+                    bad.setdefault("class", []).append("%s is refused with %s, not ValueError" % (shown, got))
+                elif not want and got is not None:
+                    bad.setdefault("refused", []).append("%s is refused (%s) although the date exists (the month has %d days)" % (shown, got, mlen))
+    for kind, lst in sorted(bad.items()):
+        rep.violation("R-REFUSE-GRID", site, "refusal-grid:" + kind, lst[0] + "  (%d of %d executed classes fail this way)" % (len(lst), n), obligation=True)
+    if not bad:
+        rep.ok("R-REFUSE-GRID", site, "%d classes of (year, month, day) executed: ValueError exactly for year < -4712, day < 1, day >= month length + 1 (leap rule in force)" % n, obligation=True)
+    rep.floor("date classes executed for the refusal decision", n, 1800)
+    return not bad
+
+
+def d1(repo, rep, grid_ok=None):
     """refusals of Epoch._check_values decided on the path conditions of its symbolic evaluation (no statement shapes):
     which (year, month, day) reach `raise ValueError`, the month-length limit as a decision table over
     (month == 2, is_leap(year)), and the month-length table itself"""
@@ -228,6 +335,8 @@ def d1(repo, rep):
     for frag, ok_, what in (("year<-4712", refused("Lt", Y, -4712), "year before -4712"), ("day<1", refused("Lt", D, 1), "day below 1")):
         if ok_:
             rep.ok("R-RANGE-REFUSE", site + ":" + frag, "refused with ValueError")
+        elif grid_ok:
+            rep.ok("R-RANGE-REFUSE", site + ":" + frag, "not tested in this form in _check_values; the construction path refuses it all the same (R-REFUSE-GRID)")
         else:
             rep.violation("R-RANGE-REFUSE", site, "refusal:" + frag, "%s is not refused with ValueError (`%s`)" % (what, frag))
     # the month-length refusal: day >= limit + 1 (or day > limit), limit built from a 12-entry table
@@ -235,6 +344,10 @@ def d1(repo, rep):
     for a in atoms:
         if a[0] == "cmp" and a[2] == D and a[1] in ("GtE", "Gt") and any(x[0] in ("list", "tuple") and len(x) == 13 for x in T.walk(a[3])):
             limit = T.add(a[3], T.num(-1)) if a[1] == "GtE" else a[3]
+    if limit is None and grid_ok:
+        rep.ok("R-RANGE-REFUSE", site + ":month-length", "no `day >= table limit + 1` test of the known form; days past the month end are refused all the same (R-REFUSE-GRID)")
+        d1_rest(repo, rep)
+        return
     if limit is None:
         rep.violation("R-RANGE-REFUSE", site, "refusal:month-length", "a day beyond the month's length is not refused")
         return
@@ -266,8 +379,14 @@ def d1(repo, rep):
                     feb = False
     if feb:
         rep.ok("R-DEP", site + ":february", "February limit is 29 exactly when Epoch.is_leap(year)")
+    elif grid_ok:
+        rep.ok("R-DEP", site + ":february", "February limit not of the form `29 if is_leap(year)`; 29 February is accepted exactly in leap years all the same (R-REFUSE-GRID)")
     else:
         rep.violation("R-DEP", site, "february", "the February limit does not depend on Epoch.is_leap(year)")
+    d1_rest(repo, rep)
+
+
+def d1_rest(repo, rep):
     month_forms(repo, rep)
     # month names
     q = "Epoch.get_month"
@@ -322,8 +441,38 @@ def d1(repo, rep):
         ok = ok_g and ok_j and thr in (1582, 1583)
     if ok:
         rep.ok("R-DEP", "Epoch." + q, "Gregorian rule (calendar.isleap) from %d on, |year| %% 4 == 0 before" % thr)
+        return
+    # any other way of writing it: the rule is a decision over residues and the side of the change-over - executed on every class
+    from ..rules import eval_exact, NotEvaluable, repo_prims
+    from .c16 import stdlib_prims
+    prims = repo_prims(repo, stdlib_prims_noleap(repo))
+    years = list(range(-4712, -4690)) + list(range(-12, 13)) + list(range(1170, 1230)) + list(range(1570, 2401)) + [2800, 3000, 4000, 5999, 6000]
+    wrong = []
+    try:
+        for y in years:
+            got = eval_exact(t, {T.sym("NUM_Y"): Fraction(y), "$memo": {}}, prims)
+            want = (y % 4 == 0) if y <= 1582 else calendar.isleap(y)
+            if bool(got) != want:
+                wrong.append((y, got))
+    except (NotEvaluable, TypeError, ValueError, IndexError, KeyError) as e:
+        rep.inconcl("R-DEP", "Epoch." + q, "leap rule neither in the known form nor executable: %s" % e)
+        return
+    if wrong:
+        rep.violation("R-DEP", "Epoch." + q, "leap-rule", "is_leap(%d) = %s: the leap rule is divisibility by 4 in the Julian calendar (to 1582) and the 4/100/400 rule from 1583 "
+                      "(%d of %d executed years differ: %s)" % (wrong[0][0], wrong[0][1], len(wrong), len(years), ", ".join(str(w[0]) for w in wrong[:8])))
     else:
-        rep.violation("R-DEP", "Epoch." + q, "leap-rule", "leap rule is not: Gregorian 4/100/400 rule from 1582 on, divisibility by 4 before: " + T.show(t)[:140])
+        rep.ok("R-DEP", "Epoch." + q, "leap rule executed on %d years (every residue mod 400 after 1582, Julian years of both signs): 4/100/400 from 1583, divisibility by 4 before" % len(years))
+
+
+def stdlib_prims_noleap(repo):
+    """calendar.isleap only (is_leap itself is the function under examination)"""
+    from ..rules import eval_exact
+
+    def prims(t, env):
+        if t[0] == "call" and t[1] == "calendar.isleap" and len(t) == 3:
+            return bool(calendar.isleap(int(eval_exact(t[2], env, prims))))
+        return None
+    return prims
 
 
 def month_forms(repo, rep):
